@@ -81,3 +81,26 @@ Proof.
     destruct (dfs_ids_val w f i r w E) as (_ & (l & ->) & _). eauto.
   - intros (l & E). apply (dfs_ids_val w f i _ _ E).
 Qed.
+
+(* which constructors the partial theorem covers (pinned, so that coverage cannot shrink silently) *)
+Theorem coverage : forall o,
+  covered_op o = match o with
+                 | OpCopy _ _ | OpCopyAt _ _ _ | OpMove _ _ | OpMoveAt _ _ _ => false
+                 | OpSetCData _ (DFloat _) => false
+                 | _ => true
+                 end.
+Proof. intros o. destruct o; try reflexivity. Qed.
+
+(* non-vacuity: the hypotheses are satisfiable (the empty world, from which every history starts with OpNewModel) *)
+Example panicfree_empty (T : tables) (tab_el tab_en : nametab) : PanicFree T tab_el tab_en empty_world.
+Proof.
+  constructor.
+  - constructor.
+    + intros i. cbn. split; [intros H; exfalso; apply H; reflexivity|intros H; lia].
+    + intros i n E. discriminate E.
+    + intros x [].
+  - intros i L. cbn in L. lia.
+  - intros p c (n & E & _). discriminate E.
+Qed.
+Example op_wf_new_model (tab_el tab_en : nametab) : op_wf tab_el tab_en empty_world OpNewModel.
+Proof. exact I. Qed.
